@@ -434,96 +434,168 @@ class Walker:
 
 
 def check_walkers(rep, rule, func, kind, site=None, rule_leaf=None):
-    """kind: 'first' (_lookup), 'update' (_lookupAll), 'extend' (_subscriptions)"""
+    """kind: 'first' (_lookup), 'update' (_lookupAll), 'extend' (_subscriptions).
+
+    Decided over the path summaries of the walker: for each path the branch
+    (i < l or not), the sequence walked, the probe, what is done with a probed
+    container, and whether the walk goes on afterwards."""
+    from ..sympath import summaries as _s, normal as _n
     site = site or 'adapter.' + func.name
-    w = Walker(func)
-    ok = len(w.rec) == 1 and len(w.leaf) == 1
-    rep.check(rule, site, ok,
-              'one walk over %s[%s].__sro__ and one over the extendor list `%s` '
-              '(found %d/%d)' % (w.specs, w.i, w.prov, len(w.rec), len(w.leaf)),
-              construct='loops', node=func)
-    if not ok:
-        return
-    (rl, rd, _), (ll, ld, _) = w.rec[0], w.leaf[0]
-    rep.check(rule, site, w.guard(rl, True) and w.guard(ll, False),
-              'the recursive walk runs iff %s < %s, the leaf walk iff not'
-              % (w.i, w.l), construct='split', node=func)
-    pe = w.probe_exact(rl)
-    rep.check(rule, site, pe[0], 'recursive walk probes with %s (required exactly '
-              'the loop variable)' % pe[1], construct='rec-probe', node=rl)
-    pe = w.probe_exact(ll)
-    rep.check(rule, site, pe[0], 'leaf walk probes with %s' % pe[1],
-              construct='leaf-probe', node=ll)
-    okr, dr = w.recursion(rl)
-    rep.check(rule, site, okr, dr, construct='recursion', node=rl)
-    name_p = 'name' if 'name' in w.ps else None
-    if kind == 'first':
-        rep.check(rule, site, rd == 'fwd',
-                  'walk over the required spec\'s __sro__ is %s (required fwd at '
-                  'every position: most specific first)' % rd, construct='rec-direction',
-                  node=rl)
-        rep.check(rule, site, ld == 'fwd',
-                  'walk over the extendors is %s (required fwd: most general '
-                  'provided interface first)' % ld, construct='leaf-direction', node=ll)
-        for lp, c in ((rl, 'rec-first-hit'), (ll, 'leaf-first-hit')):
-            okf, df = w.first_hit(lp)
-            rep.check(rule, site, okf, df, construct=c, node=lp)
-        gets = [c for c in calls_in(ll) if isinstance(c.func, ast.Attribute)
-                and c.func.attr == 'get' and len(c.args) == 1
-                and isinstance(c.args[0], ast.Name) and c.args[0].id == name_p]
-        rep.check(rule, site, len(gets) == 1,
-                  'leaf probes the exact name: %s' % [norm_src(g) for g in gets],
-                  construct='name-probe', node=ll)
-        # miss: None (explicit or falling off the end)
-        from ..sympath import summaries as _s, normal as _n
-        rets = {nt(p.ret) for p in _n(_s(func)) if not any(
-            isinstance(n.ast, ast.Return) and isinstance(n.ast.value, ast.Name)
-            for n, lab in p.path if n.ast is not None)}
-        rep.check(rule, site, rets <= {'None'},
-                  'a walk without a hit yields None (%s)' % sorted(rets),
-                  construct='miss', node=func)
-        return
-    exits = w.exits(rl) + w.exits(ll)
-    conts = []
-    rep.check(rule, site, not exits,
-              'both walks visit everything (early exits: %s)'
-              % [norm_src(e) for e in exits], construct='exhaustive', node=func)
-    res_p = 'result'
-    if kind == 'update':
-        ups = find_all(ll, '%s.update($c)' % res_p)
-        firsts = find_all(ll, '%s.setdefault($k, $v)' % res_p)
-        comb = 'last-wins' if ups and not firsts else (
-            'first-wins' if firsts and not ups else 'unknown')
-        want = {'last-wins': 'rev', 'first-wins': 'fwd'}.get(comb)
-        rep.check(rule, site, want is not None, 'leaf combinator is %s' % comb,
-                  construct='combinator', node=ll)
-        if want:
-            rep.check(rule, site, rd == want,
-                      'walk over the required spec\'s __sro__ is %s with a %s '
-                      'collector => %s specific registration wins per name '
-                      '(required: most specific, as lookup())'
-                      % (rd, comb, 'most' if rd == want else 'least'),
-                      construct='rec-direction', node=rl)
-            rep.check(rule, site, ld == want,
-                      'walk over the extendors is %s with a %s collector => %s '
-                      'general provided interface wins per name (required: the '
-                      'first of the list, as lookup())'
-                      % (ld, comb, 'most' if ld == want else 'least'),
-                      construct='leaf-direction', node=ll)
-    else:
-        exts = find_all(ll, '%s.extend($c)' % res_p) + find_all(ll, '%s += $c' % res_p, 'exec')
-        gets = [g for g, e in find_all(ll, '$x.get(%s)' % name_p)]
-        rep.check(rule, site, len(exts) == 1 and len(gets) == 1,
-                  'extends the result with the leaf stored under the exact name '
-                  '(extend %d, name probe %d)' % (len(exts), len(gets)),
-                  construct='combinator', node=ll)
-        rep.check(rule, site, rd == 'rev',
-                  'walk over the required spec\'s __sro__ is %s (required rev: less '
-                  'specific required specs first)' % rd, construct='rec-direction',
-                  node=rl)
-        rep.check(rule, site, ld == 'rev',
-                  'walk over the extendors is %s (required rev)' % ld,
-                  construct='leaf-direction', node=ll)
+    ps_ = params(func)
+    comp, specs, prov = ps_[0], ps_[1], ps_[2]
+    i, l = ps_[-2], ps_[-1]
+    name_p = 'name' if 'name' in ps_ else None
+    res_p = 'result' if 'result' in ps_ else None
+    rev = kind != 'first'
+    cfg = cfg_of(func)
+    P = {k: [] for k in ('split', 'direction', 'probe', 'recursion', 'leaf',
+                         'walk', 'miss')}
+    seen = set()
+
+    def dirs(base):
+        fwd = [base, 'iter(%s)' % base]
+        bwd = ['reversed(%s)' % base, '%s[::-1]' % base]
+        return (bwd, fwd) if rev else (fwd, bwd)
+    for ps in _n(_s(func)):
+        br = ps.facts.get('%s < %s' % (i, l))
+        calls = [e for e in ps.events if e.kind == 'call' and not (
+            isinstance(e.r.func, ast.Name) and e.r.func.id in ('reversed', 'iter'))]
+        iters = [(c[5:-1], t, k) for k, (c, t, p) in enumerate(ps.order)
+                 if c.startswith('ITER(')]
+        if br is None:
+            if iters or calls:
+                P['split'].append('a walk or probe that is not decided by %s < %s' % (i, l))
+            continue
+        base = '%s[%s].__sro__' % (specs, i) if br else prov
+        good, wrong = dirs(base)
+        mine = [(c, t, k) for c, t, k in iters if c in good]
+        for c, t, k in iters:
+            if c in wrong:
+                P['direction'].append(
+                    'walk over %s is `%s` (required %s: %s)' % (
+                        'the required spec\'s __sro__' if br else 'the extendors',
+                        c, 'reversed' if rev else 'forward',
+                        'less specific / less general first so that the most specific '
+                        'wins last' if rev else 'most specific / most general first'))
+            elif c not in good:
+                P['split'].append('with %s < %s %s walks `%s`' % (i, l, br, c[:60]))
+        if len(mine) != 1:
+            if not [1 for c, t, k in iters if c in wrong]:
+                P['split'].append('with %s < %s %s: %d walks over `%s`'
+                                  % (i, l, br, len(mine), base))
+            continue
+        S, ran, k_it = mine[0]
+        E = 'EACH(%s)' % S
+        probe = '%s.get(%s)' % (comp, E)
+        texts = [nt(e.r) for e in calls]
+        if not ran:
+            if texts:
+                P['walk'].append('calls `%s` although the walk is empty' % texts[0][:60])
+            if kind == 'first' and nt(ps.ret) != 'None':
+                P['miss'].append('an empty walk yields `%s`' % nt(ps.ret)[:40])
+            continue
+        if not texts or texts[0] != probe:
+            P['probe'].append('probes with `%s` (required `%s`)'
+                              % (texts[0][:70] if texts else None, probe))
+            continue
+        pt = ps.facts.get(probe)
+        if pt is None and ps.facts.get(probe + ' is None') is not None:
+            pt = not ps.facts[probe + ' is None']
+        last_k = len(ps.order) - 1
+        goes_on = ps.reenters_loop(cfg, last_k)
+        if pt is False:
+            seen.add(('skip', br))
+            if texts[1:]:
+                P['probe'].append('uses an empty/missing container: `%s`' % texts[1][:60])
+            if not goes_on:
+                P['walk'].append('the walk stops at a missing container')
+            continue
+        if pt is None:
+            P['probe'].append('the probed container is used without a test')
+            continue
+        if br:
+            want = [nt(ast.parse('%s(%s)' % (func.name, ', '.join(
+                [probe] + list(ps_[1:-2]) + ['%s + 1' % i, l])), mode='eval').body)]
+            want.append(nt(ast.parse('%s(%s)' % (func.name, ', '.join(
+                [probe] + list(ps_[1:-2]) + ['1 + %s' % i, l])), mode='eval').body))
+            if len(texts) != 2 or texts[1] not in want:
+                P['recursion'].append('recursive step is `%s` (required `%s`)'
+                                      % ([t[:110] for t in texts[1:]], want[0]))
+                continue
+            deeper = texts[1]
+        else:
+            deeper = '%s.get(%s)' % (probe, name_p) if kind != 'update' else None
+        if kind == 'first':
+            if not br and (len(texts) != 2 or texts[1] != deeper):
+                P['leaf'].append('leaf step is `%s` (required the exact name: `%s`)'
+                                 % ([t[:80] for t in texts[1:]], deeper))
+                continue
+            hit = ps.facts.get(deeper + ' is None')
+            if hit is None:
+                P['walk'].append('a result is not tested against None (%s)'
+                                 % ('recursive' if br else 'leaf'))
+            elif hit is False:
+                seen.add(('hit', br))
+                if ps.kind != 'return' or nt(ps.ret) != deeper:
+                    P['walk'].append('a found result is not returned (returns `%s`)'
+                                     % nt(ps.ret)[:60])
+            else:
+                seen.add(('miss', br))
+                if not goes_on:
+                    P['walk'].append('the walk stops at the first miss')
+                if nt(ps.ret) != 'None':
+                    P['miss'].append('a walk without a hit yields `%s`' % nt(ps.ret)[:40])
+            continue
+        # exhaustive collectors
+        if br:
+            seen.add(('hit', br))
+        elif kind == 'update':
+            if texts[1:] != ['%s.update(%s)' % (res_p, probe)]:
+                P['leaf'].append('leaf step is `%s` (required %s.update(<container>): '
+                                 'later, more specific, entries win per name)'
+                                 % ([t[:80] for t in texts[1:]], res_p))
+                continue
+            seen.add(('hit', br))
+        else:
+            ext = '%s.extend(%s)' % (res_p, deeper)
+            lt = ps.facts.get(deeper)
+            augs = [nt(e.r) + ' += ' + nt(e.val.right) for e in ps.events
+                    if e.kind == 'aug' and isinstance(e.val, ast.BinOp)]
+            if texts[1:] == [deeper, ext] and lt is True or \
+                    texts[1:] == ['%s.extend(%s.get(%s, ()))' % (res_p, probe, name_p)]:
+                seen.add(('hit', br))
+            elif texts[1:] == [deeper] and lt is False:
+                seen.add(('miss', br))
+            else:
+                P['leaf'].append('leaf step is `%s` (required: extend %s with the '
+                                 'leaf stored under the exact name)'
+                                 % ([t[:80] for t in texts[1:]], res_p))
+                continue
+        if not goes_on:
+            P['walk'].append('the walk ends early (every container must be visited)')
+    need = {('hit', True), ('hit', False), ('skip', True), ('skip', False)}
+    if need - seen and not any(P.values()):
+        P['split'].append('no path for %s' % sorted(need - seen))
+    msgs = {
+        'split': 'the recursive walk (over %s[%s].__sro__) runs iff %s < %s, the leaf '
+                 'walk (over the extendor list `%s`) iff not' % (specs, i, i, l, prov),
+        'direction': 'both walks run %s' % ('in reverse' if rev else 'forward'),
+        'probe': 'each walk probes %s.get(<loop item>) and skips missing containers'
+                 % comp,
+        'recursion': 'recursion passes the probed container, %s + 1 and everything '
+                     'else unchanged' % i,
+        'leaf': {'first': 'the leaf walk looks up the exact name',
+                 'update': 'the leaf walk merges the container into the result',
+                 'extend': 'the leaf walk extends the result with the named leaf'}[kind],
+        'walk': 'first hit is returned, misses continue' if kind == 'first'
+                else 'both walks visit everything',
+        'miss': 'a walk without a hit yields None',
+    }
+    for c in ('split', 'direction', 'probe', 'recursion', 'leaf', 'walk', 'miss'):
+        if c == 'miss' and kind != 'first':
+            continue
+        rep.check(rule, site, not P[c], msgs[c] if not P[c] else
+                  {'problems': sorted(set(P[c]))[:3]}, construct=c, node=func)
 
 
 # ---------------------------------------------------------------------------
